@@ -51,6 +51,8 @@ def histRuns (env : Clikit.App.Env) (cv : Clikit.Parser.Conv) (app : List Clikit
     let r := runAppS env cv app hs s l
     Json.mkObj [
       ("status", jOpt jNat r.1.status),
+      -- the I/O configuration `create_io` builds for THIS run (what every handler of the run finds on entry)
+      ("io", C09.jIO r.1.io),
       ("what", C09.jWhat r.1.what),
       ("selected", jExcept C09.jSel (resolveCommandS cv s app l).1),
       ("invoked", jList C09.jSel r.1.invoked),
